@@ -1213,12 +1213,20 @@ def oracle_history(case):
 
 
 _PAIR = None
+_PAIR_PID = 0
 
 
 def _zygotes() -> ZygotePair:
-    global _PAIR
+    """The pair of clock zygotes of *this* process (a pair inherited through fork belongs to the parent: never shared)."""
+    global _PAIR, _PAIR_PID
+    import os
+
+    if _PAIR is not None and _PAIR_PID != os.getpid():
+        _PAIR.forget()
+        _PAIR = None
     if _PAIR is None:
         _PAIR = ZygotePair("props.c19")
+        _PAIR_PID = os.getpid()
         import atexit
 
         atexit.register(_close_zygotes)
@@ -1227,9 +1235,11 @@ def _zygotes() -> ZygotePair:
 
 def _close_zygotes():
     global _PAIR
-    if _PAIR is not None:
+    import os
+
+    if _PAIR is not None and _PAIR_PID == os.getpid():
         _PAIR.close()
-        _PAIR = None
+    _PAIR = None
 
 
 def oracle_clock(case):
@@ -1422,6 +1432,7 @@ def drv_pairs(ctx: Ctx, sub: SubCheck):
 
 def drv_clock(ctx: Ctx, sub: SubCheck):
     _self_check()
+    _close_zygotes()  # a pair started by regression / witness replays in this process must not be inherited by the workers
     strat = history_strategy(max_len=5)
     full = _canon()
 
